@@ -19,11 +19,38 @@ def load_corpus(pid):
     return cases
 
 
+class ImplHang(BaseException):
+    """raised by the per-case alarm: the implementation did not return (BaseException so that no
+    `except Exception` inside the code under test can swallow it)"""
+
+
+def _alarm(signum, frame):
+    raise ImplHang()
+
+
 def safe_impl(mod, case):
+    """run the implementation on one case under a wall-clock limit: a call that does not return is an
+    observable outcome ('hang'), reported as a failing input - never as a stuck check"""
+    import signal
+    limit = getattr(mod, 'CASE_TIMEOUT', 20)
+    use_alarm = hasattr(signal, 'setitimer') and limit
+    if use_alarm:
+        old = signal.signal(signal.SIGALRM, _alarm)
+        signal.setitimer(signal.ITIMER_REAL, limit)
     try:
         return mod.run_impl(case)
+    except ImplHang:
+        return {'hang': True, 'limit_s': limit}
     except Exception as e:   # harness bug or an escape the module did not canonicalise
         return {'harness_exception': '%s: %s' % (type(e).__name__, e), 'tb': traceback.format_exc()[-1500:]}
+    finally:
+        if use_alarm:
+            signal.setitimer(signal.ITIMER_REAL, 0)
+            signal.signal(signal.SIGALRM, old)
+
+
+def is_hang(o):
+    return isinstance(o, dict) and o.get('hang') is True
 
 
 def main():
@@ -67,11 +94,11 @@ def main():
             print('replay file names no concrete input:', obj.get('what'))
             sys.exit(1)
         out = safe_impl(mod, case)
-        fail = mod.oracle(case, out)
+        fail = 'implementation hung' if is_hang(out) else mod.oracle(case, out)
         print('case:', json.dumps(C.jsonable(case))[:2000])
         print('implementation output:', json.dumps(C.jsonable(out))[:2000])
         print('property oracle:', fail or 'holds')
-        term = mod.coq_term(case, out) if ok_build else None
+        term = mod.coq_term(case, out) if (ok_build and not is_hang(out)) else None
         if term is not None:
             mism, errs = C.run_coq_cases(pid, mod.IMPORTS, mod.CASE_TYPE, mod.CHECK_FN, term if isinstance(term, list) else [term], tag='replay')
             print('model agrees with implementation:', not mism and not errs, errs[:1])
@@ -93,7 +120,7 @@ def main():
     terms, term_idx = [], []
     if ok_build:
         for i, (c, o) in enumerate(zip(cases, outs)):
-            if isinstance(o, dict) and 'harness_exception' in o:
+            if isinstance(o, dict) and ('harness_exception' in o or is_hang(o)):
                 continue
             t = mod.coq_term(c, o)
             for t1 in (t if isinstance(t, list) else [t]):
@@ -109,6 +136,9 @@ def main():
     oracle_fail = []
     for i, (c, o) in enumerate(zip(cases, outs)):
         if isinstance(o, dict) and 'harness_exception' in o:
+            continue
+        if is_hang(o):
+            oracle_fail.append((i, 'the implementation did not return within %ss on this input (unbounded loop / stall)' % o.get('limit_s')))
             continue
         f = mod.oracle(c, o)
         if f:
@@ -155,11 +185,11 @@ def main():
         case = cases[i]
         if hasattr(mod, 'shrink'):
             try:
-                case = mod.shrink(case, lambda c: bool(mod.oracle(c, safe_impl(mod, c))))
+                case = mod.shrink(case, lambda c: (lambda o: is_hang(o) or bool(mod.oracle(c, o)))(safe_impl(mod, c)))
             except Exception as e:
                 notes.append('shrink failed: %r' % e)
         out = safe_impl(mod, case)
-        f2 = mod.oracle(case, out) or f
+        f2 = f if is_hang(out) else (mod.oracle(case, out) or f)
         p = write_replay('%s-%d-%d.json' % (pid, seed, i), dict(property=pid, what=f2, case=case, impl_output=out,
                          origin=cases[i].get('origin'), also_failing=len(oracle_unlisted) - 1))
         print('VIOLATION property=%s replay=%s' % (pid, p))
@@ -209,7 +239,7 @@ def main():
     for c, o in zip(cases, outs):
         dist[str(c.get('kind', '?'))] += 1
         try:
-            nt = mod.nontrivial(c, o)
+            nt = (not is_hang(o)) and mod.nontrivial(c, o)
         except Exception:
             nt = False
         if nt:
